@@ -7,6 +7,7 @@ with the input's internal gaps; (iii) Pretext order kept within a shared
 destination; (iv) deep cuts exact.
 """
 
+import itertools
 import math
 
 from mc import pv
@@ -40,6 +41,13 @@ def inputs_for(bpt, tier):
         for a in firsts:
             for b in seconds:
                 out.append((a, b))
+    # "chain" inputs: long, short, short, long - several contigs are shared between pieces at once, so the
+    # overhang resolver needs more than one round next to sub-texel contigs
+    inner = [2, e, e + 1]
+    for o1, o2 in ((8 * e + 4, 8 * e + 4), (2 * e + 2, 8 * e + 4)):
+        for inn in itertools.product(inner, repeat=2):
+            for st in ((1, 1, 1, 1), (1, -1, 1, -1)) if tier == "thorough" else ((1, 1, 1, 1),):
+                out.append((("scaffold_1", pv.scaffold_rows("tpf", "scaffold_1", (o1, *inn, o2), ((),) * 3, st)),))
     _ = scale
     return out
 
@@ -114,9 +122,12 @@ class C02(Check):
             if i % chunks != chunk:
                 continue
             two = len(inp) > 1
-            for pieces in pv.pv_piece_lists(inp, bpt, max_cuts=1 if two else 2, max_pieces=3, margin=3 * e + 2):
+            chain = sum(1 for r in inp[0][1] if r[0] == "F") >= 4
+            for pieces in pv.pv_piece_lists(inp, bpt, max_cuts=1 if two else 2, max_pieces=3, margin=(e + 2) if (chain and not full) else (3 * e + 2)):
                 n = len(pieces)
                 arrs = pv.arrangements(n) if (n < 3 or full) else pv.arrangements_reduced(n)
+                if chain and not full:
+                    arrs = [tuple(((i, 1),) for i in range(n)), (tuple((i, 1) for i in range(n)),), tuple(((i, -1 if i % 2 else 1),) for i in reversed(range(n)))]
                 for arr in arrs:
                     pats = pv.painted_patterns(len(arr), full=False)
                     if not full and n == 3:
